@@ -471,7 +471,8 @@ func judgeLibFile(c LibFileCase) (vs []evid.Violation) {
 	vs = append(vs, bvs...)
 	if viewB != nil {
 		vs = append(vs, registerFresh(viewB)...)
-		if bytes.Equal(viewB.ct, view.ct) {
+		// only where a chance collision is negligible (a 1-byte secret has 256 possible ciphertexts)
+		if len(view.ct) >= 16 && bytes.Equal(viewB.ct, view.ct) {
 			vs = append(vs, evid.V("fresh-ciphertext", "the same key and password encrypted twice give the same ciphertext %x", view.ct))
 		}
 	}
